@@ -25,6 +25,8 @@ pub enum Op {
     /// update with an unknown field name
     UpdateUnknown(u64),
     Remove(u64),
+    /// read a document (a read that may overlap writers)
+    Get(u64),
     Flush,
     CompactBtree,
     CompactBm25,
@@ -319,6 +321,10 @@ pub async fn exec_on(coll: &Collection, op: &Op) -> Option<Outcome> {
             Ok(None) => Outcome::Removed(None),
             Err(e) => Outcome::Err(classify(&e)),
         },
+        Op::Get(id) => match coll.get_as::<VDoc>(*id).await {
+            Ok(d) => Outcome::Doc(Box::new(d)),
+            Err(e) => Outcome::Err(classify(&e)),
+        },
         Op::Flush => match coll.flush(anda_db::unix_ms()).await {
             Ok(_) => Outcome::Unit,
             Err(e) => Outcome::Err(classify(&e)),
@@ -405,6 +411,10 @@ impl SeqModel {
                 Some(_) => Expect::Rejected(vec!["Schema", "Other", "NotFound"]),
             },
             Op::Remove(id) => Expect::Removed(self.docs.docs.get(id).cloned().map(Box::new)),
+            Op::Get(id) => match self.docs.docs.get(id) {
+                Some(d) => Expect::Doc(Box::new(d.clone())),
+                None => Expect::Rejected(vec!["NotFound"]),
+            },
             _ => Expect::Unit,
         }
     }
